@@ -1,4 +1,5 @@
 import TextxVerif.Proofs.LoadTreeFrame
+import TextxVerif.Proofs.LoadTreeHist
 /-!
 # C15 — a failed load leaves nothing behind
 
@@ -17,15 +18,44 @@ namespace LoadTree
 
 variable {α : Type}
 
-/-- **Nothing of the attempt stays reachable from the classes.** Objects created by the
-attempt have ids `≥ sh.next`: after a failed attempt no such key is left in any
-per-object storage, so the classes reference no part of the partially built models. -/
-theorem C15_unreachable (table : List Load) (n : Nat) (L : Load) (sh : Sh α) (hg : Good sh)
-    (_hfail : (runF table n L sh).2 = false) :
+/-- **No key of the attempt is left in any per-object storage** — whatever the outcome.  Objects
+created by the attempt have ids `≥ sh.next`: afterwards no such key is stored (after a success they
+were popped one by one right before their `__init__`, after a failure discarded by the handlers). -/
+theorem C15_no_key_left (table : List Load) (n : Nat) (L : Load) (sh : Sh α) (hg : Good sh) :
     ∀ p, p ∈ (runF table n L sh).1.attrs → p.2 < sh.next := by
   intro p hp
   rw [(runF_frame table n L sh hg).2.1] at hp
   exact hg.lt p hp
+
+/-- **Nothing of the attempt stays reachable from the classes.** Objects created by the
+attempt have ids `≥ sh.next`: after a failed attempt no such key is left in any
+per-object storage, so the classes reference no part of the partially built models.
+(Corollary of `C15_no_key_left`, which does not need the failure.) -/
+theorem C15_unreachable (table : List Load) (n : Nat) (L : Load) (sh : Sh α) (hg : Good sh)
+    (_hfail : (runF table n L sh).2 = false) :
+    ∀ p, p ∈ (runF table n L sh).1.attrs → p.2 < sh.next :=
+  C15_no_key_left table n L sh hg
+
+/-- **No parser of a failed attempt stays registered.** When the attempt of a main model fails — at
+whatever point, with whatever user code (`env` arbitrary) — the list of parsers (models) of the
+attempt that are still registered, and through which `_tx_parser` / the collected attributes could be
+reached, is empty: every one went through `_abort_model_construction` or the handler of
+`get_model_from_str` (`failOuter`).  Independent of `Good`. -/
+theorem C15_nothing_registered (env : Env α) (L : Load) (sh : Sh α) (left : List PRec)
+    (hfail : (node env true L [] sh).2 = .error left) : left = [] :=
+  node_main_left env L sh left hfail
+
+/-- the hypothesis of `C15_nothing_registered` is what `runF … = false` means -/
+theorem C15_fail_iff (table : List Load) (n : Nat) (L : Load) (sh : Sh α) :
+    (runF table (n + 1) L sh).2 = false ↔
+      (node (tableEnv (runF table n) table) true L [] sh).2 = .error [] := by
+  simp only [runF, runMain]
+  constructor
+  · intro h
+    cases hr : (node (tableEnv (runF table n) table) true L [] sh).2 with
+    | ok _ => rw [hr] at h; simp at h
+    | error left => rw [node_main_left _ L sh left hr]
+  · intro h; rw [h]
 
 /-- **User classes are left uninstrumented.** Classes that were untouched before a
 failing attempt are untouched after it: no counter, the original methods, no cache,
@@ -52,6 +82,39 @@ theorem C15_same_as_fresh (table : List Load) (n k : Nat) (L L' : Load) (sh : Sh
       runF table k L' ⟨sh.core, sh.attrs, m, [], []⟩ := by
   obtain ⟨h1, h2, _⟩ := runF_frame table n L sh hg
   rw [h1, h2]
+
+/-- **History form.** Any sequence of load attempts on the same classes — failing at any point or
+succeeding, each with its own nested loads to any depth — leaves every class (counter, methods,
+cache) and the stored keys exactly as the first attempt found them; the allocator only moved
+forward and the state is again one in which the theorems apply (`Good`), so the next attempt starts
+as the first one did. -/
+theorem C15_history (hist : List (List Load × Nat × Load)) (sh : Sh α) (hg : Good sh) :
+    (runHist hist sh).core = sh.core ∧ (runHist hist sh).attrs = sh.attrs ∧
+      sh.next ≤ (runHist hist sh).next ∧ Good (runHist hist sh) :=
+  ⟨(runHist_frame hist sh hg).1.core, (runHist_frame hist sh hg).1.attrs, (runHist_frame hist sh hg).1.next,
+   (runHist_frame hist sh hg).2⟩
+
+/-- after any history of attempts that started with untouched classes, the classes are untouched -/
+theorem C15_history_clean (hist : List (List Load × Nat × Load)) (orig : ClassId → α)
+    (next : Nat) (log own : List Ev) :
+    let sh : Sh α := ⟨fun c => ⟨0, .real (orig c), none⟩, [], next, log, own⟩
+    (runHist hist sh).attrs = [] ∧ ∀ c, (runHist hist sh).core c = ⟨0, .real (orig c), none⟩ := by
+  intro sh
+  have hg : Good sh := ⟨fun c => ⟨orig c, 0, rfl⟩, List.nodup_nil, fun p hp => by simp [sh] at hp⟩
+  obtain ⟨h1, h2, _⟩ := C15_history hist sh hg
+  exact ⟨h2, fun c => by rw [h1]⟩
+
+/-- **A subsequent load behaves as with a fresh metamodel, after any history.**  `runNext` = an
+attempt with its own event lists on the classes as the history left them: outcome, calls of user
+code with their instrumentation snapshots and final class states equal those of the same attempt
+on the classes as they were before the whole history (allocator state being equal: it is
+CPython's). -/
+theorem C15_same_as_fresh_history (hist : List (List Load × Nat × Load)) (table : List Load) (k : Nat)
+    (L' : Load) (sh : Sh α) (hg : Good sh) :
+    runNext table k L' (runHist hist sh) =
+      runNext table k L' { sh with next := (runHist hist sh).next } := by
+  obtain ⟨h1, h2, _⟩ := C15_history hist sh hg
+  simp only [runNext, h1, h2]
 
 /-- the allocator only moves forward: ids of the failed attempt are not handed out again -/
 theorem C15_ids_not_reused (table : List Load) (n : Nat) (L : Load) (sh : Sh α) (hg : Good sh) :
@@ -85,6 +148,21 @@ example : (runF [] 1 (main (child (h0 22) (h0 20) true) (hx 10)) clean).2 = fals
 example : (runF [] 1 (main (child (h0 22) (hx 20) true) (h0 10)) clean).1.own.map Ev.key =
     [(0, 1, 11), (5, 2, 20), (2, 2, 22), (3, 1, 10), (3, 2, 21), (3, 2, 20)] := by decide
 example : (runF [] 1 (main (child (h0 22) (hx 20) true) (h0 10)) clean).1.attrs = [] := by decide
+/-- a history: three failing attempts (the second with a load nested in user code that fails too),
+then the repaired tree: it succeeds with the events of a load on fresh classes -/
+private def mainN (c : Load) : Load :=
+  .mk 1 [0] true (.obj (some 0) (h0 10) [.conv ⟨11, [(0, true)], false⟩]) none [c] [] false [h0 10] (h0 10)
+private def bad1 : Load := main (child (hx 22) (h0 20) true) (h0 10)
+private def bad2 : Load := mainN (child (h0 22) (hx 20) true)
+private def good : Load := main (child (h0 22) (h0 20) true) (h0 10)
+private def hist3 : List (List Load × Nat × Load) := [([], 1, bad1), ([bad1], 2, bad2), ([], 1, main (child (h0 22) (h0 20) false) (h0 10))]
+example : hist3.map (fun x => (runF x.1 x.2.1 x.2.2 clean).2) = [false, false, false] := by decide
+example : (runNext [] 1 good (runHist hist3 clean)).2 = true := by decide
+example : (runNext [] 1 good (runHist hist3 clean)).1.own = (runNext [] 1 good { clean with next := (runHist hist3 clean).next }).1.own := by decide +kernel
+example : (runHist hist3 clean).next = 10 := by decide
+/-- `C15_nothing_registered` is not vacuous: a failing main attempt -/
+example : (node (tableEnv (runF [] 0) []) true bad1 [] clean).2 = .error [] :=
+  (C15_fail_iff [] 0 bad1 clean).1 (by decide)
 end
 
 end LoadTree
